@@ -6,6 +6,12 @@ From Coq Require Import NArith List Arith Lia Bool.
 From ISAL Require Import Base.Words Base.ListUtil Spec.MD Spec.HashApiSpec Proofs.ChunkFacts.
 Import ListNotations.
 
+Lemma upd_oob' {X} i (x : X) l : length l <= i -> upd i x l = l.
+Proof.
+  revert i. induction l as [|h t IH]; intros i H; [destruct i; reflexivity|].
+  destruct i; cbn [length] in H; [lia|]. cbn [upd]. f_equal. apply IH. lia.
+Qed.
+
 (* ---- the abstract state as a function of the calls and of who was handed back -------- *)
 
 Definition retired (ac : actx) : actx :=
@@ -86,6 +92,54 @@ Definition pending_step (p : list nat) (co : call * obs) : list nat :=
   | CFlush => remove_id (o_ret (snd co)) p
   end.
 Definition pending (tr : list (call * obs)) : list nat := fold_left pending_step tr [].
+
+(* whether the most recent accepted submit to r carried the LAST flag *)
+Definition last_step (r : nat) (acc : bool) (co : call * obs) : bool :=
+  match fst co with
+  | CSubmit cid buf flags => if ((cid =? r) && (o_rc (snd co) =? 0)%N)%bool then flag_last flags else acc
+  | CFlush => acc
+  end.
+Definition last_of (r : nat) (tr : list (call * obs)) : bool := fold_left (last_step r) tr false.
+
+(* ---- the structural part of a response: everything spec_check demands except the digest
+        comparison and the lane bound.  It holds of every model trace WITHOUT any bound on
+        the stream lengths. *)
+Definition hb_struct (a1 : list actx) (o : obs) : Prop :=
+  forall r, o_ret o = Some r ->
+    exists l, s_phase (nth r a1 dummy) = AFlight l /\ o_status o = (if l then 4 else 0)%N /\
+              o_total o = w64 (N.of_nat (length (s_stream (nth r a1 dummy)))).
+
+Definition step_struct (a : list actx) (c : call) (o : obs) : Prop :=
+  match c with
+  | CSubmit cid buf flags =>
+      cid < length a /\
+      match rejection (nth cid a dummy) flags with
+      | Some e => o_rc o = rc_of e /\ o_ret o = Some cid /\ o_error o = e
+      | None => o_rc o = 0%N /\
+                hb_struct (upd cid {| s_stream := (if flag_first flags then [] else s_stream (nth cid a dummy)) ++ buf;
+                                      s_phase := AFlight (flag_last flags) |} a) o /\
+                (o_ret o = Some cid -> o_error o = 0%N)
+      end
+  | CFlush => o_rc o = 0%N /\ hb_struct a o /\ (o_ret o = None -> n_flight a = 0)
+  end.
+
+Fixpoint trace_struct (a : list actx) (tr : list (call * obs)) : Prop :=
+  match tr with
+  | [] => True
+  | (c, o) :: rest => step_struct a c o /\ trace_struct (abs_step a c (o_ret o)) rest
+  end.
+
+(* p lists exactly the contexts in flight *)
+Definition flight_set (a : list actx) (p : list nat) : Prop :=
+  NoDup p /\ forall i, In i p <-> in_flight (nth i a dummy) = true.
+
+Definition phase_flag (p : aphase) (lf : bool) : Prop :=
+  match p with
+  | AFlight l => l = lf
+  | AComplete => lf = true
+  | AIdle => lf = false
+  | ANew => True
+  end.
 
 Section SpecFacts.
 Variable A : algo.
@@ -194,15 +248,25 @@ Proof.
   rewrite <- (spec_check_abs_step _ _ _ _ E). auto.
 Qed.
 
-(* the stream the acceptor tracks is the trace-level stream *)
-Lemma stream_track_step a c o a' r : spec_check A K a c o = Some a' ->
-  s_stream (nth r a' dummy) = stream_step r (s_stream (nth r a dummy)) (c, o).
+Lemma nth_repeat_dummy n i : nth i (repeat dummy n) dummy = dummy.
+Proof. revert i. induction n; intros [|i]; cbn [repeat nth]; auto. Qed.
+
+Lemma trace_struct_app t1 t2 : forall a, trace_struct a (t1 ++ t2) ->
+  trace_struct a t1 /\ trace_struct (abs_run a t1) t2.
 Proof.
-  intros H. pose proof (spec_check_abs_step _ _ _ _ H) as ->. unfold stream_step. cbn [fst snd].
-  destruct c as [cid buf flags|]; cbn [abs_step]; [|apply stream_retire].
-  apply spec_check_submit_inv in H. destruct H as [Hc H].
-  destruct (rejection (nth cid a dummy) flags) as [e|] eqn:Rej.
-  - destruct H as (_ & _ & _ & Hrc). rewrite Hrc, (rc_of_nonzero e (rejection_codes _ _ _ Rej)).
+  induction t1 as [|[c o] t1 IH]; intros a H; [split; [exact I|exact H]|].
+  cbn [app trace_struct abs_run] in *. destruct H as [H1 H2]. destruct (IH _ H2). auto.
+Qed.
+
+(* ---- the stream and the LAST flag the acceptor tracks are the trace-level ones ------------ *)
+
+Lemma stream_track_step a c o r : step_struct a c o ->
+  s_stream (nth r (abs_step a c (o_ret o)) dummy) = stream_step r (s_stream (nth r a dummy)) (c, o).
+Proof.
+  intros H. unfold stream_step. cbn [fst snd].
+  destruct c as [cid buf flags|]; cbn [abs_step step_struct] in *; [|apply stream_retire].
+  destruct H as [Hc H]. destruct (rejection (nth cid a dummy) flags) as [e|] eqn:Rej.
+  - destruct H as (Hrc & _). rewrite Hrc, (rc_of_nonzero e (rejection_codes _ _ _ Rej)).
     rewrite andb_false_r. reflexivity.
   - destruct H as [Hrc _]. rewrite Hrc. cbn [N.eqb]. rewrite andb_true_r, stream_retire.
     destruct (Nat.eq_dec cid r) as [<-|E].
@@ -210,20 +274,116 @@ Proof.
     + rewrite nth_upd_neq by exact E. apply Nat.eqb_neq in E. rewrite E. reflexivity.
 Qed.
 
-Lemma stream_track tr r : forall a, accepts A K a tr = true ->
+Lemma stream_track tr r : forall a, trace_struct a tr ->
   s_stream (nth r (abs_run a tr) dummy) = fold_left (stream_step r) tr (s_stream (nth r a dummy)).
 Proof.
   induction tr as [|[c o] tr IH]; intros a H; [reflexivity|].
-  apply accepts_cons in H. destruct H as [H1 H2]. cbn [abs_run fold_left].
-  rewrite (IH _ H2). rewrite (stream_track_step _ _ _ _ r H1). reflexivity.
+  destruct H as [H1 H2]. cbn [abs_run fold_left].
+  rewrite (IH _ H2). rewrite (stream_track_step _ _ _ r H1). reflexivity.
 Qed.
 
-Lemma nth_repeat_dummy n i : nth i (repeat dummy n) dummy = dummy.
-Proof. revert i. induction n; intros [|i]; cbn [repeat nth]; auto. Qed.
-
-Lemma stream_track_init tr r n : accepts A K (repeat dummy n) tr = true ->
+Lemma stream_track_init tr r n : trace_struct (repeat dummy n) tr ->
   s_stream (nth r (abs_run (repeat dummy n) tr) dummy) = stream_of r tr.
 Proof. intros H. rewrite (stream_track tr r _ H), nth_repeat_dummy. reflexivity. Qed.
+
+Lemma phase_retire a r i lf : phase_flag (s_phase (nth i a dummy)) lf ->
+  phase_flag (s_phase (nth i (retire a r) dummy)) lf.
+Proof.
+  intros H. destruct r as [r|]; [|exact H]. cbn [retire].
+  destruct (Nat.lt_ge_cases r (length a)) as [Hr|Hr]; [|rewrite upd_oob' by exact Hr; exact H].
+  destruct (Nat.eq_dec r i) as [<-|E]; [|rewrite nth_upd_neq by exact E; exact H].
+  rewrite nth_upd_eq by exact Hr. unfold retired. cbn [s_phase].
+  destruct (s_phase (nth r a dummy)) as [| | |[|]]; cbn [phase_flag] in *; auto.
+Qed.
+
+Lemma phase_track_step a c o r lf : step_struct a c o ->
+  phase_flag (s_phase (nth r a dummy)) lf ->
+  phase_flag (s_phase (nth r (abs_step a c (o_ret o)) dummy)) (last_step r lf (c, o)).
+Proof.
+  intros H P. unfold last_step. cbn [fst snd].
+  destruct c as [cid buf flags|]; cbn [abs_step step_struct] in *; [|apply phase_retire; exact P].
+  destruct H as [Hc H]. destruct (rejection (nth cid a dummy) flags) as [e|] eqn:Rej.
+  - destruct H as (Hrc & _). rewrite Hrc, (rc_of_nonzero e (rejection_codes _ _ _ Rej)).
+    rewrite andb_false_r. exact P.
+  - destruct H as [Hrc _]. rewrite Hrc. cbn [N.eqb]. rewrite andb_true_r. apply phase_retire.
+    destruct (Nat.eq_dec cid r) as [<-|E].
+    + rewrite Nat.eqb_refl, nth_upd_eq by exact Hc. reflexivity.
+    + rewrite nth_upd_neq by exact E. apply Nat.eqb_neq in E. rewrite E. exact P.
+Qed.
+
+Lemma phase_track tr r : forall a lf, trace_struct a tr ->
+  phase_flag (s_phase (nth r a dummy)) lf ->
+  phase_flag (s_phase (nth r (abs_run a tr) dummy)) (fold_left (last_step r) tr lf).
+Proof.
+  induction tr as [|[c o] tr IH]; intros a lf H P; [exact P|].
+  destruct H as [H1 H2]. cbn [abs_run fold_left].
+  apply IH; [exact H2|]. apply phase_track_step; assumption.
+Qed.
+
+(* ---- the contexts in flight are the pending ones ----------------------------------------------- *)
+
+Lemma in_remove_id r p x : In x (remove_id r p) <-> In x p /\ r <> Some x.
+Proof.
+  destruct r as [r|]; cbn [remove_id]; [|split; [intros H; split; [exact H|discriminate]|intros [H _]; exact H]].
+  rewrite filter_In. split; intros [H1 H2]; (split; [exact H1|]).
+  - apply negb_true_iff, Nat.eqb_neq in H2. intros [= ->]. contradiction.
+  - apply negb_true_iff, Nat.eqb_neq. intros ->. contradiction.
+Qed.
+
+Lemma nodup_remove_id r p : NoDup p -> NoDup (remove_id r p).
+Proof. destruct r; cbn [remove_id]; [apply NoDup_filter|auto]. Qed.
+
+Lemma in_flight_retired ac : in_flight (retired ac) = false.
+Proof. unfold in_flight, retired. cbn [s_phase]. destruct (s_phase ac) as [| | |[|]]; reflexivity. Qed.
+
+Lemma flight_retire a p r : flight_set a p -> flight_set (retire a r) (remove_id r p).
+Proof.
+  intros [N1 I1]. split; [apply nodup_remove_id; exact N1|]. intros i. rewrite in_remove_id, I1.
+  destruct r as [r|]; cbn [retire]; [|split; [intros [H _]; exact H|intros H; split; [exact H|discriminate]]].
+  destruct (Nat.eq_dec r i) as [<-|E].
+  - destruct (Nat.lt_ge_cases r (length a)) as [Hr|Hr].
+    + rewrite nth_upd_eq by exact Hr. rewrite in_flight_retired. split; [intros [_ H]; contradiction|discriminate].
+    + rewrite upd_oob' by exact Hr. rewrite nth_overflow by exact Hr. split; [intros [H _]; exact H|discriminate].
+  - rewrite nth_upd_neq by exact E. split; [intros [H _]; exact H|].
+    intros H; split; [exact H|]. intros [= ->]. contradiction.
+Qed.
+
+Lemma flight_step a p c o : step_struct a c o -> flight_set a p ->
+  flight_set (abs_step a c (o_ret o)) (pending_step p (c, o)).
+Proof.
+  intros H FS. unfold pending_step. cbn [fst snd].
+  destruct c as [cid buf flags|]; cbn [abs_step step_struct] in *; [|apply flight_retire; exact FS].
+  destruct H as [Hc H]. destruct (rejection (nth cid a dummy) flags) as [e|] eqn:Rej.
+  - destruct H as (Hrc & _). rewrite Hrc, (rc_of_nonzero e (rejection_codes _ _ _ Rej)). exact FS.
+  - destruct H as [Hrc _]. rewrite Hrc. cbn [N.eqb]. apply flight_retire.
+    destruct FS as [N1 I1].
+    assert (Hnf : in_flight (nth cid a dummy) = false).
+    { unfold rejection in Rej. unfold in_flight. destruct (flag_bad flags); [discriminate|].
+      destruct (s_phase (nth cid a dummy)); try reflexivity. discriminate. }
+    assert (Hni : ~ In cid p) by (intros Hin; apply I1 in Hin; congruence).
+    split.
+    + apply NoDup_rev in N1. rewrite <- (rev_involutive (p ++ [cid])). apply NoDup_rev.
+      rewrite rev_app_distr. cbn [rev app]. constructor; [rewrite <- in_rev; exact Hni|exact N1].
+    + intros i. rewrite in_app_iff. cbn [In]. destruct (Nat.eq_dec cid i) as [<-|E].
+      * rewrite nth_upd_eq by exact Hc. split; [reflexivity|auto].
+      * rewrite nth_upd_neq by exact E. rewrite <- I1. split; [intros [H|[H|[]]]; [exact H|contradiction]|auto].
+Qed.
+
+Lemma flight_track tr : forall a p, trace_struct a tr -> flight_set a p ->
+  flight_set (abs_run a tr) (fold_left pending_step tr p).
+Proof.
+  induction tr as [|[c o] tr IH]; intros a p H FS; [exact FS|].
+  destruct H as [H1 H2]. cbn [abs_run fold_left]. apply IH; [exact H2|]. apply flight_step; assumption.
+Qed.
+
+Lemma flight_track_init tr n : trace_struct (repeat dummy n) tr ->
+  flight_set (abs_run (repeat dummy n) tr) (pending tr).
+Proof.
+  intros H. apply flight_track; [exact H|]. split; [constructor|].
+  intros i. rewrite nth_repeat_dummy. split; [intros []|discriminate].
+Qed.
+
+(* ---- what the caller sees when a context comes back from a call that succeeded ---------- *)
 
 (* a context handed back by a call that succeeded (return code 0) was in flight; what the
    caller sees is what its phase demands *)
@@ -258,4 +418,117 @@ Proof.
   - apply spec_check_flush_inv in H. destruct H as [_ H]. rewrite Hr in H. eapply G. exact H.
 Qed.
 
+(* the abstract state of a successful call just before the hand-back *)
+Definition pre_retire (a : list actx) (c : call) : list actx :=
+  match c with
+  | CSubmit cid buf flags =>
+      match rejection (nth cid a dummy) flags with
+      | Some _ => a
+      | None => upd cid {| s_stream := (if flag_first flags then [] else s_stream (nth cid a dummy)) ++ buf;
+                           s_phase := AFlight (flag_last flags) |} a
+      end
+  | CFlush => a
+  end.
+
+Lemma hb_of_step a c o : step_struct a c o -> o_rc o = 0%N ->
+  (forall r, abs_step a c r = retire (pre_retire a c) r) /\ hb_struct (pre_retire a c) o /\
+  (forall i, in_flight (nth i (pre_retire a c) dummy) = true ->
+             in_flight (nth i a dummy) = true \/ exists buf flags, c = CSubmit i buf flags).
+Proof.
+  intros H Hrc. destruct c as [cid buf flags|]; cbn [abs_step step_struct pre_retire] in *.
+  - destruct H as [Hc H]. destruct (rejection (nth cid a dummy) flags) as [e|] eqn:Rej.
+    + destruct H as (Hrc' & _). rewrite Hrc in Hrc'.
+      pose proof (rc_of_nonzero e (rejection_codes _ _ _ Rej)) as Hn. rewrite <- Hrc' in Hn. discriminate.
+    + destruct H as (_ & HB & _). split; [reflexivity|]. split; [exact HB|].
+      intros i Hi. destruct (Nat.eq_dec cid i) as [<-|E]; [right; eauto|].
+      rewrite nth_upd_neq in Hi by exact E. left. exact Hi.
+  - destruct H as (_ & HB & _). split; [reflexivity|]. split; [exact HB|]. auto.
+Qed.
+
+(* status and total length of a context handed back by a call that succeeded, and where it
+   came from: no bound on the stream needed *)
+Lemma handback_struct n tr t1 c o t2 r :
+  trace_struct (repeat dummy n) tr -> tr = t1 ++ (c, o) :: t2 ->
+  o_rc o = 0%N -> o_ret o = Some r ->
+  let t := t1 ++ [(c, o)] in
+  o_status o = (if last_of r t then 4 else 0)%N /\
+  o_total o = w64 (N.of_nat (length (stream_of r t))) /\
+  (In r (pending t1) \/ exists buf flags, c = CSubmit r buf flags) /\
+  ~ In r (pending t).
+Proof.
+  intros TS -> Hrc Hr t.
+  assert (TS1 : trace_struct (repeat dummy n) t).
+  { replace (t1 ++ (c, o) :: t2) with (t ++ t2) in TS by (unfold t; rewrite <- app_assoc; reflexivity).
+    apply trace_struct_app in TS. apply TS. }
+  pose proof (stream_track_init t r n TS1) as ST.
+  pose proof (phase_track t r (repeat dummy n) false TS1) as PT.
+  rewrite nth_repeat_dummy in PT. specialize (PT I). change (fold_left (last_step r) t false) with (last_of r t) in PT.
+  pose proof (flight_track_init t n TS1) as [_ FT].
+  unfold t in TS1. apply trace_struct_app in TS1. destruct TS1 as [TS0 [SS _]].
+  pose proof (flight_track_init t1 n TS0) as [_ FT0].
+  unfold t in ST, PT, FT. rewrite abs_run_app in ST, PT, FT. cbn [abs_run] in ST, PT, FT.
+  set (a1 := abs_run (repeat dummy n) t1) in *. rewrite Hr in ST, PT, FT.
+  destruct (hb_of_step a1 c o SS Hrc) as (E0 & HB & Hfl).
+  destruct (HB r Hr) as (l & Ph & Hs & Ht).
+  set (a0 := pre_retire a1 c) in *.
+  assert (Hlt : r < length a0).
+  { destruct (Nat.lt_ge_cases r (length a0)) as [Hl|Hl]; [exact Hl|].
+    rewrite nth_overflow in Ph by exact Hl. discriminate. }
+  rewrite E0 in ST, PT, FT. rewrite stream_retire in ST.
+  cbn [retire] in PT. rewrite nth_upd_eq in PT by exact Hlt.
+  unfold retired in PT. cbn [s_phase] in PT. rewrite Ph in PT.
+  split; [|split; [|split]].
+  - rewrite Hs. unfold t. destruct l; cbn [phase_flag] in PT; rewrite PT; reflexivity.
+  - rewrite Ht, ST. reflexivity.
+  - destruct (Hfl r) as [H|H]; [unfold in_flight; rewrite Ph; reflexivity| |right; exact H].
+    left. apply FT0. exact H.
+  - intros Hin. apply FT in Hin. cbn [retire] in Hin. rewrite nth_upd_eq in Hin by exact Hlt.
+    rewrite in_flight_retired in Hin. discriminate.
+Qed.
+
+(* the digest: needs the trace to be accepted (which the refinement theorem gives when the
+   streams are below 2^61 bytes) *)
+Lemma handback_digest n tr t1 c o t2 r :
+  trace_struct (repeat dummy n) tr -> accepts A K (repeat dummy n) tr = true ->
+  tr = t1 ++ (c, o) :: t2 -> o_rc o = 0%N -> o_ret o = Some r -> o_status o = 4%N ->
+  o_digest o = md_hash A (stream_of r (t1 ++ [(c, o)])).
+Proof.
+  intros TS Acc -> Hrc Hr H4.
+  assert (TS1 : trace_struct (repeat dummy n) (t1 ++ [(c, o)])).
+  { replace (t1 ++ (c, o) :: t2) with ((t1 ++ [(c, o)]) ++ t2) in TS by (rewrite <- app_assoc; reflexivity).
+    apply trace_struct_app in TS. apply TS. }
+  pose proof (stream_track_init _ r n TS1) as ST.
+  apply accepts_app in Acc. destruct Acc as [_ Acc]. apply accepts_cons in Acc. destruct Acc as [SC _].
+  rewrite abs_run_app in ST. cbn [abs_run] in ST.
+  destruct (spec_check_handed_back _ _ _ _ r SC Hrc Hr) as (_ & _ & S3 & _).
+  rewrite ST in S3. apply S3. exact H4.
+Qed.
+
 End SpecFacts.
+
+(* the lane bound is monotone: a trace accepted with bound K is accepted with any larger one
+   (the checks run the acceptor with K = lanes + 1, the bound of the property text; the model
+   theorems hold for the tighter K = lanes) *)
+Lemma spec_check_mono A K K' a c o a' : K <= K' ->
+  spec_check A K a c o = Some a' -> spec_check A K' a c o = Some a'.
+Proof.
+  intros HK. unfold spec_check. destruct c as [cid buf flags|]; [|auto].
+  destruct (negb (cid <? length a)); [auto|].
+  destruct (rejection (nth cid a dummy) flags); [auto|].
+  destruct (negb (o_rc o =? 0)%N); [auto|].
+  destruct (o_ret o) as [r|].
+  - destruct ((r =? cid) && negb (o_error o =? 0)%N)%bool; [auto|].
+    destruct (hand_back_ok A _ r o) as [a2|]; [|auto].
+    destruct (n_flight a2 <? K) eqn:E; [|discriminate]. apply Nat.ltb_lt in E.
+    assert (E' : (n_flight a2 <? K') = true) by (apply Nat.ltb_lt; lia). rewrite E'. auto.
+  - match goal with |- context [n_flight ?x <? K] => destruct (n_flight x <? K) eqn:E; [|discriminate];
+      apply Nat.ltb_lt in E; assert (E' : (n_flight x <? K') = true) by (apply Nat.ltb_lt; lia); rewrite E' end.
+    auto.
+Qed.
+
+Lemma accepts_mono A K K' tr : K <= K' -> forall a, accepts A K a tr = true -> accepts A K' a tr = true.
+Proof.
+  intros HK. induction tr as [|[c o] tr IH]; intros a H; [reflexivity|]. cbn [accepts] in *.
+  destruct (spec_check A K a c o) as [a'|] eqn:E; [|discriminate].
+  rewrite (spec_check_mono A K K' a c o a' HK E). apply IH. exact H.
+Qed.
